@@ -2702,9 +2702,12 @@ PPL::Grid::time_elapse_assign(const Grid& y) {
     }
   }
 
+  // The origin has become the zero parameter, which is not valid.
+  gs.remove_invalid_lines_and_parameters();
+
   PPL_ASSERT(gs.sys.OK());
 
-  if (gs_num_rows == 0) {
+  if (gs.has_no_rows()) {
     // `y' was the grid containing a single point at the origin, so
     // the result is `x'.
     return;
